@@ -47,6 +47,7 @@ class Guard:
   calls = None  # list of (path tuple, arg, ret) when recording
   shadow = None  # {(col, path tuple, name): total last written by the program through put / variable init}
   stale = None  # reads that did not return the value the program last wrote there
+  leaked = None  # Scope objects seen during the call (when recording): they outlive it
 
   @classmethod
   def reset(cls):
@@ -55,6 +56,7 @@ class Guard:
     cls.calls = None
     cls.shadow = None
     cls.stale = None
+    cls.leaked = None
 
   @classmethod
   def wrote(cls, col, path, name, tot):
@@ -208,6 +210,8 @@ class CoreApi:
 
   def __init__(self, scope):
     self.scope = scope
+    if Guard.leaked is not None:
+      Guard.leaked.append(scope)
 
   def path(self):
     return tuple(self.scope.path)
@@ -253,6 +257,8 @@ class LinenApi:
   def __init__(self, module, classes):
     self.m = module
     self.classes = classes
+    if Guard.leaked is not None:
+      Guard.leaked.append(module.scope)
 
   def path(self):
     return tuple(self.m.path)
@@ -781,6 +787,7 @@ ERR_CLASSES = [
   (flax_errors.InvalidRngError, 'InvalidRngError'),
   (flax_errors.ApplyScopeInvalidVariablesStructureError, 'ApplyScopeInvalidVariablesStructureError'),
   (flax_errors.LazyInitError, 'LazyInitError'),
+  (flax_errors.InvalidScopeError, 'InvalidScopeError'),
 ]
 
 
@@ -808,6 +815,7 @@ def model_err_names(err, style, prog=None):
     'noRng': {'InvalidRngError'},
     'perturbMissing': {'ValueError'},
     'invalidStructure': {'ApplyScopeInvalidVariablesStructureError'},
+    'invalidScope': {'InvalidScopeError'},
   }
   return table.get(err)
 
@@ -1604,3 +1612,462 @@ def check_shared(ctx, case, prop):
     ctx.violation('shared-instance-tree', f"variables of an instance shared by two parents: got {o['tree']}, expected one subtree under its attribute name: {want['tree']}", case)
   elif tuple(o['apply'][0][:2]) != want['apply']:
     ctx.violation('shared-instance-wrong', f"apply returned {o['apply'][0][:2]}, expected {want['apply']}", case)
+
+
+# ------------------------------------------------------------------------------------------------
+# scope objects that leak out of apply (Scope.temporary / invalidate / _check_valid)
+# ------------------------------------------------------------------------------------------------
+
+
+def gen_leak_ops(rng, V, path):
+  """operations to try on a leaked scope at `path`: existing variables for put/get, fresh names for the rest"""
+  here = [(p[0], p[-1]) for p, v in V['vars'] if p[1:-1] == list(path) and 't' in v]
+  ops = []
+  for _ in range(rng.randrange(2, 6)):
+    k = rng.choice(['put', 'put', 'get', 'variable', 'param', 'push', 'rewound'])
+    if k in ('put', 'get'):
+      c, n = rng.choice(here) if here and rng.random() < 0.7 else (rng.choice(VCOLS), 'zq0')
+      ops.append({'op': k, 'c': c, 'n': n, 'v': rng.randrange(5, 9)} if k == 'put' else {'op': k, 'c': c, 'n': n})
+    elif k == 'variable':
+      ops.append({'op': k, 'c': rng.choice(VCOLS), 'n': rng.choice(['zq1', 'zq2']), 'v': rng.randrange(1, 4)})
+    elif k == 'param':
+      ops.append({'op': k, 'n': rng.choice(['zq3', 'zq4']), 'shape': rng.choice([[], [2]]), 'init': 1})
+    elif k == 'push':
+      ops.append({'op': k, 'name': rng.choice(['zq5', 'zq6'])})
+    else:
+      ops.append({'op': k})
+  # within one list a fresh name is declared at most once (the scope object keeps its reservations)
+  seen, out = set(), []
+  for o in ops:
+    key = (o['op'], o.get('n'), o.get('name'))
+    if o['op'] in ('variable', 'param', 'push') and (o.get('n') or o.get('name')) in seen:
+      continue
+    seen.add(o.get('n') or o.get('name'))
+    out.append(o)
+  return out
+
+
+def run_leak(sc, which):
+  """apply, keeping every Scope object seen; then tries sc['ops'] on one of them.
+  -> None when not applicable, else dict(handle, results, inputs_changed, returned_after)"""
+  R = Rendered(sc['prog'], sc['style'])
+  Guard.reset()
+  Guard.leaked = []
+  mut = filter_py(sc['mutable'])
+  V = unflatten_vars(sc['vars'])
+  sV, _ = snap_tree(V)
+  x = np.asarray(sc['x'], F32)
+  r = R.apply(V, x, {'params': the_key()} if sc['rngs'] else None, mut)
+  leaked, peak = Guard.leaked, Guard.peak
+  Guard.leaked = None
+  if peak >= LIMIT or not leaked:
+    return None
+  roots = [s_ for s_ in leaked if s_ is not None and s_.parent is None]
+  kids = [s_ for s_ in leaked if s_ is not None and s_.parent is not None]
+  pool = roots if which == 'root' else kids
+  if not pool:
+    return None
+  scope = pool[sc['pick'] % len(pool)]
+  path = list(scope.path)
+  ops = sc['ops'] if sc.get('ops') is not None else gen_leak_ops(sc['_rng'], sc['vars'], path)
+  try:
+    scope.reservations.clear()  # the attempts start from a scope without pending declarations, like the model's
+  except Exception:
+    pass
+  results = []
+  for o in ops:
+    try:
+      if o['op'] == 'put':
+        scope.put_variable(o['c'], o['n'], np.asarray(o['v'], F32))
+      elif o['op'] == 'get':
+        scope.get_variable(o['c'], o['n'])
+      elif o['op'] == 'variable':
+        scope.variable(o['c'], o['n'], lambda o=o: np.asarray(o['v'], F32))
+      elif o['op'] == 'param':
+        scope.param(o['n'], const_init(o['init']), tuple(o['shape']))
+      elif o['op'] == 'push':
+        scope.push(o['name'])
+      elif o['op'] == 'rewound':
+        scope.rewound()
+      results.append('ok')
+    except Exception as e:
+      results.append(classify(e))
+  return {'handle': {'path': path, 'invalid': bool(scope.invalid)}, 'ops': ops, 'results': results,
+          'inputs_changed': snap_tree(V)[0] != sV, 'apply_result': canon_result(r)}
+
+
+# ------------------------------------------------------------------------------------------------
+# layouts: module instances shared between several parents (dataclass fields at any position, lists /
+# dicts of the same instance, created outside or in setup), depth 1-3.  Implementation-side oracles with an
+# independent reference semantics; no Lean counterpart beyond `clone_preserves_sharing`.
+#
+# spec:  leaf   {'k': 'leaf', 'id': i}                      one GLeaf instance per id (same id = same object)
+#        holder {'k': 'holder', 'fields': [[name, value, coef], ...], 'bias': b, 'setup': bool}
+#        value  = leaf | holder | {'k': 'list', 'items': [value..]} | {'k': 'dict', 'items': {key: value}}
+# semantics: leaf(x) = x * sum(w) + cnt   (cnt := cnt + 1 first; one counter per instance)
+#            holder(x) = bias_param + sum_i coef_i * field_i(x), fields in declaration order, containers in
+#            index / sorted-key order
+# ------------------------------------------------------------------------------------------------
+
+
+class GLeaf(nn.Module):
+  shape: tuple = ()
+  init: int = 1
+
+  @nn.compact
+  def __call__(self, x):
+    w = self.param('w', const_init(self.init), self.shape)
+    c = self.variable('stats', 'cnt', lambda: full((), F32(0)))
+    c.value = full((), add(total(c.value), F32(1)))
+    return add(mul(x, total(w)), total(c.value))
+
+
+_HOLDER_CLASSES = {}
+
+
+def _call_value(v, coef_x):
+  """sum of the calls of every module in a field value (module / tuple / FrozenDict), in flax's naming order"""
+  if isinstance(v, nn.Module):
+    return v(coef_x)
+  if isinstance(v, (tuple, list)):
+    acc = F32(0)
+    for e in v:
+      acc = add(acc, _call_value(e, coef_x))
+    return acc
+  acc = F32(0)
+  for k in sorted(v.keys()):
+    acc = add(acc, _call_value(v[k], coef_x))
+  return acc
+
+
+def holder_class(names, coefs, bias, in_setup, spec_fields=None, leaves_cfg=None):
+  key = (tuple(names), tuple(coefs), bias, in_setup, id(spec_fields) if in_setup else None)
+  if key in _HOLDER_CLASSES:
+    return _HOLDER_CLASSES[key]
+
+  def __call__(self, x):
+    out = total(self.param('b', const_init(bias), ()))
+    for n, c in zip(names, coefs):
+      out = add(out, mul(F32(c), _call_value(getattr(self, n), x)))
+    return out
+
+  ns = {'__call__': nn.compact(__call__)}
+  if in_setup:
+    def setup(self):
+      made = {}
+      for n, v, _ in spec_fields:
+        setattr(self, n, build_value(v, made, leaves_cfg))
+
+    ns['setup'] = setup
+    ns['__call__'] = __call__  # setup + compact cannot be mixed with `param` in a compact method: declare b in setup
+    def setup2(self, _s=setup):
+      _s(self)
+      self.b_ = self.param('b', const_init(bias), ())
+
+    def call2(self, x):
+      out = total(self.b_)
+      for n, c in zip(names, coefs):
+        out = add(out, mul(F32(c), _call_value(getattr(self, n), x)))
+      return out
+
+    ns = {'setup': setup2, '__call__': call2}
+  else:
+    ns['__annotations__'] = {n: object for n in names}
+  cls = type('H' + ''.join(n[0] for n in names), (nn.Module,), ns)
+  _HOLDER_CLASSES[key] = cls
+  return cls
+
+
+def build_value(v, made, leaves_cfg):
+  if v['k'] == 'leaf':
+    if v['id'] not in made:
+      sh, ini = leaves_cfg[str(v['id'])]
+      made[v['id']] = GLeaf(shape=tuple(sh), init=ini)
+    return made[v['id']]
+  if v['k'] == 'list':
+    return [build_value(e, made, leaves_cfg) for e in v['items']]
+  if v['k'] == 'dict':
+    return {k: build_value(e, made, leaves_cfg) for k, e in v['items'].items()}
+  names = [f[0] for f in v['fields']]
+  coefs = [f[2] for f in v['fields']]
+  if v.get('setup'):
+    return holder_class(names, coefs, v['bias'], True, v['fields'], leaves_cfg)()
+  cls = holder_class(names, coefs, v['bias'], False)
+  return cls(**{n: build_value(val, made, leaves_cfg) for n, val, _ in v['fields']})
+
+
+def layout_reference(spec, leaves_cfg, x, W=None, cnt0=None):
+  """independent evaluation: output, expected variable tree (first adopting path per instance), use counts.
+  Instances created inside a setup-holder are local to it (a fresh `made` per setup holder)."""
+  tree = {}  # path tuple -> ('w', id) / ('b', value)
+  state = {}  # instance key -> dict(W, cnt, path)
+
+  def inst_key(v, scope_key):
+    return (scope_key, v['id'])
+
+  def adopt(v, path, scope_key):
+    """registration pass: DFS in field order; containers by index / sorted key"""
+    if v['k'] == 'leaf':
+      k = inst_key(v, scope_key)
+      if k not in state:
+        sh, ini = leaves_cfg[str(v['id'])]
+        n = 1
+        for d in sh:
+          n *= d
+        state[k] = {'W': ini * n, 'cnt': 0, 'path': path, 'shape': list(sh), 'init': ini, 'n': n}
+      return
+    if v['k'] == 'holder':
+      sk = scope_key + (path,) if v.get('setup') else scope_key
+      tree[path + ('b',)] = v['bias']
+      for n, val, _ in v['fields']:
+        adopt_value(val, path, n, sk)
+
+  def adopt_value(val, path, name, sk):
+    if val['k'] == 'list':
+      for i, e in enumerate(val['items']):
+        adopt_value_named(e, path, f'{name}_{i}', sk)
+    elif val['k'] == 'dict':
+      for k in sorted(val['items']):
+        adopt_value_named(val['items'][k], path, f'{name}_{k}', sk)
+    else:
+      adopt(val, path + (name,), sk)
+
+  def adopt_value_named(e, path, name, sk):
+    if e['k'] in ('list', 'dict'):
+      adopt_value(e, path, name, sk)
+    else:
+      adopt(e, path + (name,), sk)
+
+  adopt(spec, (), ())
+  if W is not None:
+    for k, w in W.items():
+      state[k]['W'] = w
+  if cnt0 is not None:
+    for k, c in cnt0.items():
+      state[k]['cnt'] = c
+
+  def run(v, xx, path, scope_key):
+    if v['k'] == 'leaf':
+      st = state[inst_key(v, scope_key)]
+      st['cnt'] += 1
+      return xx * st['W'] + st['cnt']
+    if v['k'] == 'list':
+      return sum(run(e, xx, path, scope_key) for e in v['items'])
+    if v['k'] == 'dict':
+      return sum(run(v['items'][k], xx, path, scope_key) for k in sorted(v['items']))
+    sk = scope_key + (path,) if v.get('setup') else scope_key
+    out = v['bias']
+    for n, val, c in v['fields']:
+      out += c * run(val, xx, path + (n,), sk)
+    return out
+
+  y = run(spec, x, (), ())
+  return y, tree, state
+
+
+def layout_expected_vars(tree, state):
+  vs = []
+  for p, b in tree.items():
+    vs.append([['params'] + list(p), {'t': [], 'd': [b]}])
+  for k, st in state.items():
+    vs.append([['params'] + list(st['path']) + ['w'], {'t': st['shape'], 'd': [st['init']] * st['n']}])
+    vs.append([['stats'] + list(st['path']) + ['cnt'], {'t': [], 'd': [st['cnt']]}])
+  return {'cols': ['params', 'stats'], 'vars': sorted(vs, key=lambda kv: kv[0])}
+
+
+def gen_layout(rng):
+  """a top-level holder (depth 1-3) in which leaf instance 0 is referenced from 2-3 places, at every position"""
+  leaves_cfg = {'0': [rng.choice([[], [2], [3]]), rng.randrange(1, 4)], '1': [rng.choice([[], [2]]), rng.randrange(1, 3)]}
+  depth = rng.choice([1, 2, 2, 3])
+  names_pool = ['enc', 'dec', 'tab', 'aux', 'm0', 'zz']
+
+  def leafref(i):
+    return {'k': 'leaf', 'id': i}
+
+  def wrap(v):
+    r = rng.random()
+    if r < 0.15:
+      return {'k': 'list', 'items': [v, leafref(1)] if rng.random() < 0.5 else [v]}
+    if r < 0.3:
+      return {'k': 'dict', 'items': {rng.choice(['a', 'z']): v}}
+    return v
+
+  def holder(d, must_share, setup_ok=True):
+    nf = rng.randrange(1, 4)
+    names = rng.sample(names_pool, nf)
+    fields = []
+    for n in names:
+      r = rng.random()
+      if d > 1 and r < 0.6:
+        val = holder(d - 1, must_share, setup_ok=False)
+      elif r < 0.85 or must_share:
+        val = wrap(leafref(0))
+      else:
+        val = leafref(1)
+      fields.append([n, val, rng.randrange(1, 3)])
+    return {'k': 'holder', 'fields': fields, 'bias': rng.randrange(0, 3), 'setup': False}
+
+  spec = holder(depth, True)
+  # make sure instance 0 occurs at least twice and in two different fields of the top-level holder
+  uses = _count_leaf(spec, 0)
+  if uses < 2:
+    pos = rng.randrange(len(spec['fields']) + 1)
+    name = next(n for n in names_pool + ['q1', 'q2'] if n not in [f[0] for f in spec['fields']])
+    spec['fields'].insert(pos, [name, wrap(leafref(0)) if rng.random() < 0.5 else
+                                {'k': 'holder', 'fields': [['tab', leafref(0), 1]], 'bias': 0, 'setup': False}, 1])
+    if _count_leaf(spec, 0) < 2:
+      name2 = next(n for n in ['q3', 'q4'] if n not in [f[0] for f in spec['fields']])
+      spec['fields'].insert(rng.randrange(len(spec['fields']) + 1), [name2, {'k': 'holder', 'fields': [['tab', leafref(0), 2]], 'bias': 1, 'setup': False}, 1])
+  if rng.random() < 0.25:
+    spec['setup'] = True  # the whole layout is created inside the top module's setup()
+  return {'kind': 'layout', 'spec': spec, 'leaves': leaves_cfg, 'x': rng.randrange(-2, 3)}
+
+
+def _count_leaf(v, i):
+  if v['k'] == 'leaf':
+    return 1 if v['id'] == i else 0
+  if v['k'] == 'list':
+    return sum(_count_leaf(e, i) for e in v['items'])
+  if v['k'] == 'dict':
+    return sum(_count_leaf(e, i) for e in v['items'].values())
+  return sum(_count_leaf(f[1], i) for f in v['fields'])
+
+
+def module_positions(m, ident):
+  """per dataclass field of `m`, the identities (via `ident`) at every module-valued position inside it, in
+  visiting order: the module itself, then (recursively) the positions of its own fields"""
+  import dataclasses as _dc
+
+  def inside(v, out):
+    if isinstance(v, nn.Module):
+      out.append(ident(v))
+      for f in _dc.fields(v):
+        if f.name not in ('parent', 'name') and f.init:
+          inside(getattr(v, f.name), out)
+    elif isinstance(v, (list, tuple)):
+      for e in v:
+        inside(e, out)
+    elif isinstance(v, (dict, FrozenDict)):
+      for k in sorted(v.keys()):
+        inside(v[k], out)
+
+  fields = []
+  for f in _dc.fields(m):
+    if f.name not in ('parent', 'name') and f.init:
+      out = []
+      inside(getattr(m, f.name), out)
+      fields.append(out)
+  return fields
+
+
+def partition(fields):
+  """canonical numbering of identities by first occurrence, keeping the field structure"""
+  seen = {}
+  return [[seen.setdefault(i, len(seen)) for i in f] for f in fields]
+
+
+def check_clone(ctx, case, top, pending):
+  """Module.clone(_deep_clone=True) keeps exactly the sharing of the original (oracle) and matches the model"""
+  orig = module_positions(top, id)
+  try:
+    cl = top.clone(_deep_clone=True)
+  except Exception as e:
+    ctx.violation('clone-raises', f'clone(_deep_clone=True) raised {classify(e)}', case)
+    return
+  new = module_positions(cl, lambda m: m._id)
+  objs = module_positions(cl, id)
+  ctx.count('oracle', 'clone-preserves-sharing')
+  if partition(new) != partition(orig) or partition(objs) != partition(orig):
+    ctx.violation('clone-breaks-sharing', f'sharing pattern of the module-valued positions per field: original {partition(orig)}, after clone(_deep_clone=True) {partition(new)}', case)
+    return
+  flat_o = {i for f in orig for i in f}
+  if any(i in flat_o for f in objs for i in f):
+    ctx.violation('clone-aliases-original', 'a deep clone still holds a submodule object of the original', case)
+    return
+  if pending is not None:
+    pending.append(({'kind': 'clone', 'fields': partition(orig), 'want': partition(new)}, None))
+
+
+def check_layout(ctx, case, prop, pending=None):
+  spec, leaves_cfg, x = case['spec'], case['leaves'], case['x']
+  ctx.case(case)
+  ctx.count('layout', 'setup' if spec.get('setup') else 'fields')
+  ctx.count('layout_uses_of_shared', _count_leaf(spec, 0))
+  top = build_value(spec, {}, leaves_cfg)
+  snap0 = snap_module(top)
+  xin = np.asarray(x, F32)
+  Guard.reset()
+  try:
+    y0, V = top.init_with_output({'params': the_key()}, xin)
+  except Exception as e:
+    ctx.violation('shared-layout-init-raises', f'init of a layout with a shared instance raised {classify(e)}', case)
+    return
+  if Guard.peak >= LIMIT:
+    return
+  y_ref, tree, state = layout_reference(spec, leaves_cfg, x)
+  want = layout_expected_vars(tree, state)
+  got, probs = flatten_vars(V)
+  if prop == 'C01':
+    if snap_module(top) != snap0 or top.scope is not None:
+      ctx.violation('input-mutated:module', 'init changed the module object or a module held in one of its fields (shared layout)', case)
+    return
+  if not spec.get('setup'):
+    check_clone(ctx, case, top, pending)
+  nleaves = sum(1 for p, _ in got['vars'] if p[0] == 'params' and p[-1] == 'w')
+  if nleaves != len(state):
+    ctx.violation('shared-instance-duplicated', f'{len(state)} distinct submodule instances but init returned {nleaves} parameter subtrees: {[p for p, _ in got["vars"] if p[-1] == "w"]}', case)
+    return
+  if probs or got != want:
+    ctx.violation('shared-instance-tree', f'variables of a layout with shared instances: got {got}, expected one subtree per instance under its first adopting path: {want}', case)
+    return
+  if out_int(y0) != y_ref:
+    ctx.violation('shared-instance-wrong', f'init returned {out_int(y0)}, the sharing semantics give {y_ref}', case)
+    return
+  # apply, and apply with the shared leaf edited: every parent must see the new value
+  cnt0 = {k: st['cnt'] for k, st in state.items()}
+  for edit in (False, True):
+    Vj = {'cols': got['cols'], 'vars': [list(kv) for kv in got['vars']]}
+    W = None
+    if edit:
+      k0 = next(k for k in state if k[-1] == 0)
+      st = state[k0]
+      newv = st['init'] + 2
+      for kv in Vj['vars']:
+        if kv[0] == ['params'] + list(st['path']) + ['w']:
+          kv[1] = {'t': st['shape'], 'd': [newv] * st['n']}
+      W = {k0: newv * st['n']}
+    y_ref2, _, state2 = layout_reference(spec, leaves_cfg, x, W=W, cnt0=cnt0)
+    Guard.reset()
+    try:
+      y2, upd = top.apply(unflatten_vars(Vj), xin, mutable='stats')
+    except Exception as e:
+      ctx.violation('shared-instance-wrong', f'apply on init\'s variables raised {classify(e)} (edited={edit})', case)
+      return
+    if Guard.peak >= LIMIT:
+      return
+    ctx.count('oracle', 'layout-apply' + ('-edited' if edit else ''))
+    if out_int(y2) != y_ref2:
+      ctx.violation('shared-instance-wrong', f'apply (shared leaf edited={edit}) returned {out_int(y2)}, every parent reading the one shared variable gives {y_ref2}', case)
+      return
+    cnts = {tuple(p[1:-1]): v['d'][0] for p, v in flatten_vars(upd)[0]['vars'] if p[0] == 'stats'}
+    if cnts != {tuple(st['path']): st['cnt'] for st in state2.values()}:
+      ctx.violation('shared-instance-wrong', f'use counters after apply {cnts}, expected {[(st["path"], st["cnt"]) for st in state2.values()]}', case)
+      return
+  # bind / unbind: the shared instance reached through ANY parent hands back the one shared state
+  if not spec.get('setup'):
+    try:
+      bound = top.bind(unflatten_vars(got))
+      for n, val, _ in spec['fields']:
+        if val['k'] == 'holder':
+          for n2, val2, _ in val['fields']:
+            if val2['k'] == 'leaf':
+              _, lv = getattr(getattr(bound, n), n2).unbind()
+              st = state[((), val2['id'])]
+              lj, _ = flatten_vars(lv)
+              wv = [v for p, v in lj['vars'] if p == ['params', 'w']]
+              ctx.count('oracle', 'layout-unbind-shared')
+              if wv != [{'t': st['shape'], 'd': [st['init']] * st['n']}]:
+                ctx.violation('shared-instance-unbind', f'unbind of the shared instance reached through {n}.{n2} returned {lj}', case)
+                return
+    except Exception as e:
+      ctx.violation('shared-instance-unbind', f'bind/unbind on a layout with a shared instance raised {classify(e)}', case)
